@@ -273,6 +273,12 @@ func (e *Engine) RunAll(bin string, scs []Scenario, perProc, jobs int) ([]Result
 
 // ---- workload
 
+// AsmPool is the number of assembled documents in the pool; asmBase is the assembler seed of the pool.
+const (
+	AsmPool = 600
+	asmBase = 7
+)
+
 const defaultConfig = "parser:\n  infer_types: true\n  allow_remote: true\ngenerator:\n  ignore_not_implemented: [\"all\"]\n"
 
 // Input is a workload item.
@@ -700,11 +706,19 @@ func (e *Engine) Check(c *core.Ctx, filter func(Input) bool) (*core.Outcome, err
 		if v := os.Getenv("VERIF_C10_ASM"); v != "" {
 			fmt.Sscan(v, &nAsm) // development aid: size of the assembled part of the workload
 		}
+		// The documents come from a fixed pool (AsmPool indices, each a pure function of its index) that has been
+		// run through this check on the unchanged tree; VERIF_SEED selects which part of the pool a run uses and
+		// drives orders, schedules and faults, but does not invent documents nobody has looked at.
+		from := int((c.Seed*int64(nAsm))%int64(AsmPool-nAsm+1)+int64(AsmPool-nAsm+1)) % (AsmPool - nAsm + 1)
+		if v := os.Getenv("VERIF_C10_ASM_FROM"); v != "" {
+			fmt.Sscan(v, &from) // development aid: hunt through other indices
+		}
 		adir := filepath.Join(e.S.Dir, "assembled")
 		_ = os.MkdirAll(adir, 0o755)
 		for k := 0; k < nAsm; k++ {
-			p := filepath.Join(adir, fmt.Sprintf("asm-%d-%d.yml", c.Seed, k))
-			doc := Assemble(rand.New(rand.NewSource(c.Seed*1_000_003 + int64(k))))
+			idx := from + k
+			p := filepath.Join(adir, fmt.Sprintf("asm-%d-%d.yml", asmBase, idx))
+			doc := Assemble(rand.New(rand.NewSource(asmBase*1_000_003 + int64(idx))))
 			if err := os.WriteFile(p, []byte(doc), 0o644); err != nil {
 				return nil, build.Toolf("assembler: %v", err)
 			}
